@@ -60,7 +60,13 @@ Involved(S, T, e, m) ==
   {x \in DOMAIN S.ss : LcN(S.ss[x].nick) \in names} \cup {x \in DOMAIN T.ss : LcN(T.ss[x].nick) \in names}
   \cup ({Actor(e)} \cap (DOMAIN S.ss \cup DOMAIN T.ss))
 RcptOf(S, T, x) == IF x \in DOMAIN S.ss THEN S.ss[x].id ELSE T.ss[x].id
-ChansOf(S, T, x) == (IF x \in DOMAIN S.ss THEN S.ss[x].chans ELSE {}) \cup (IF x \in DOMAIN T.ss THEN T.ss[x].chans ELSE {})
+(* membership as the CHANNEL sees it (that is what decides who receives channel traffic); the session's   *)
+(* own list is deliberately not trusted here, C14 checks that the two sides agree                        *)
+ChanSide(st, x) == IF x \in DOMAIN st.ss /\ st.ss[x].nick # ""
+                   THEN {c \in DOMAIN st.ch : Has(st.ch[c].mem, LcN(st.ss[x].nick)) /\ Has(st.nk, LcN(st.ss[x].nick))
+                                               /\ st.nk[LcN(st.ss[x].nick)] = x}
+                   ELSE {}
+ChansOf(S, T, x) == ChanSide(S, x) \cup ChanSide(T, x)
 Sharing(S, T, e, m) ==
   LET inv == Involved(S, T, e, m)
       named == {LcC(m.p[i]) : i \in {j \in 1..Len(m.p) : m.p[j] # ANY /\ HasPrefix(m.p[j], "#")}}
@@ -211,7 +217,7 @@ Lookup(st, id) == IF Sid(id, 0) \in DOMAIN st.ss THEN "ok" ELSE IF st.lp > id TH
 EndedGone(S, T) ==
   \A x \in Live(S) : x \notin Live(T) =>
      /\ \A k \in DOMAIN T.nk : T.nk[k] # x
-     /\ \A c \in DOMAIN T.ch : \A k \in DOMAIN T.ch[c].mem : T.nk[k] # x
+     /\ \A c \in DOMAIN T.ch : \A k \in DOMAIN T.ch[c].mem : (Has(T.nk, k) => T.nk[k] # x) /\ k # LcN(S.ss[x].nick)
 
 ---------------------------------------------------------------------------
 (* all failures of one recorded step; rec carries the verdicts computed in Go *)
@@ -227,8 +233,8 @@ PropFailures(S, e, T, out, rec) ==
         THEN F("C12", "RecipientsEntitled", RecipientsEntitled(S, T, e, out))
              \cup F("C12", "PrefixIsSender", PrefixIsSender(S, T, e, out))
              \cup PrivFailures(S, T, e, out)
-             \cup F("C17", "EndedSessionGone", EndedGone(S, T))
         ELSE {})
+  \cup (IF okS /\ ~rec.panic THEN F("C17", "EndedSessionGone", EndedGone(S, T)) ELSE {})
   \cup F("C06", "NoPanic", ~(rec.panic /\ rec.e.conf))
   \cup F("C01", "ReplicasAgree", rec.det = "")
   \cup F("C03", "SaveLoadInvisible", rec.snap = "")
